@@ -346,6 +346,141 @@ func (g *gen) progStackEdge() ([]byte, []byte, []byte) {
 	return a.bytes(), nil, nil
 }
 
+// one state-writing opcode with its operands
+func (g *gen) writeOp(a *asm) string {
+	r := g.r
+	switch r.Intn(9) {
+	case 0:
+		a.pushU(uint64(1 + r.Intn(5))).pushU(uint64(r.Intn(3))).op(0x55)
+		return "sstore"
+	case 1:
+		n := r.Intn(3)
+		for i := 0; i < n; i++ {
+			a.pushU(uint64(7 + i))
+		}
+		a.pushU(uint64(r.Intn(40))).pushU(0).op(byte(0xa0 + n))
+		return "log"
+	case 2:
+		a.pushU(0).pushU(0).pushU(0).op(0xf0)
+		return "create"
+	case 3:
+		a.pushU(uint64(r.Intn(9))).pushU(0).pushU(0).pushU(0).op(0xf5)
+		return "create2"
+	case 4:
+		a.pushB(origin.Bytes()).op(0xff)
+		return "selfdestruct"
+	case 5:
+		a.pushU(1).pushU(0).op(0x5d)
+		return "tstore"
+	case 6: // CALL with value
+		a.pushU(0).pushU(0).pushU(0).pushU(0).pushU(uint64(1 + r.Intn(3))).pushB(emptyAcc.Bytes()).op(0x5a).op(0xf1)
+		return "call-value"
+	case 7: // CALLCODE with value (allowed in static context by the loop's test: no transfer happens to another account)
+		a.pushU(0).pushU(0).pushU(0).pushU(0).pushU(1).pushB(emptyAcc.Bytes()).op(0x5a).op(0xf2)
+		return "callcode-value"
+	default: // CALL without value: not a write
+		a.pushU(0).pushU(0).pushU(0).pushU(0).pushU(0).pushB(emptyAcc.Bytes()).op(0x5a).op(0xf1)
+		return "call-novalue"
+	}
+}
+
+// an inner call whose callee returns / stops / reverts (or has no code / does not exist / is a precompile)
+func (g *gen) innerCall(a *asm, calleeHasCode bool) {
+	r := g.r
+	kind := []byte{0xfa, 0xfa, 0xf1, 0xf4, 0xf2}[r.Intn(5)]
+	var to []byte
+	switch r.Intn(6) {
+	case 0:
+		to = emptyAcc.Bytes()
+	case 1:
+		to = r.Bytes(20)
+	case 2:
+		to = precompileAddr(4).Bytes()
+	default:
+		if calleeHasCode {
+			to = aux2Addr.Bytes()
+		} else {
+			to = emptyAcc.Bytes()
+		}
+	}
+	a.pushU(uint64(r.Intn(40))).pushU(0).pushU(uint64(r.Intn(40))).pushU(0)
+	if kind == 0xf1 || kind == 0xf2 {
+		a.pushU(0)
+	}
+	a.pushB(to)
+	if r.Chance(3, 4) {
+		a.op(0x5a)
+	} else {
+		a.pushU(uint64(r.Intn(50000)))
+	}
+	a.op(kind).op(0x50) // POP the success flag
+}
+
+func (g *gen) leafProg() []byte {
+	r := g.r
+	a := &asm{}
+	switch r.Intn(5) {
+	case 0:
+		a.op(0x00)
+	case 1:
+		a.pushU(0xabcd).pushU(0).op(0x52).pushU(uint64(r.Intn(40))).pushU(0).op(0xf3)
+	case 2:
+		a.pushU(uint64(r.Intn(33))).pushU(0).op(0xfd)
+	case 3: // the leaf itself: inner static call to a code-less account, then a write
+		a.pushU(0).pushU(0).pushU(0).pushU(0).pushB(emptyAcc.Bytes()).op(0x5a).op(0xfa).op(0x50)
+		g.writeOp(a)
+		a.op(0x00)
+	default:
+		a.op(0xfe)
+	}
+	return a.bytes()
+}
+
+// nested call structure with the write placed AFTER an inner call returned:
+// target --(STATICCALL mostly)--> aux --(inner call)--> aux2/empty/fresh/precompile ; then aux writes.
+// Whether a write must fail depends only on the call structure (any enclosing STATICCALL).
+func (g *gen) progNestedStatic() (code, input, aux, aux2 []byte) {
+	r := g.r
+	// aux: k inner calls, then the write, then a visible continuation
+	b := &asm{}
+	if r.Chance(1, 4) {
+		g.writeOp(b) // a write BEFORE any inner call too
+	}
+	k := 1 + r.Intn(2)
+	for i := 0; i < k; i++ {
+		g.innerCall(b, true)
+	}
+	nw := 1 + r.Intn(2)
+	for i := 0; i < nw; i++ {
+		g.writeOp(b)
+	}
+	b.pushU(0x600d).pushU(0).op(0x52).pushU(32).pushU(0).op(0xf3)
+	aux = b.bytes()
+	aux2 = g.leafProg()
+	if r.Chance(1, 8) {
+		// AUTH + AUTHCALL executed by the statically called contract
+		aux, _, aux2 = g.progAuthLiveFor(auxAddr)
+	}
+	// target
+	a := &asm{}
+	if r.Chance(1, 3) {
+		g.innerCall(a, true)
+	}
+	outer := []byte{0xfa, 0xfa, 0xfa, 0xf1, 0xf4}[r.Intn(5)]
+	a.pushU(32).pushU(0).pushU(0).pushU(0)
+	if outer == 0xf1 {
+		a.pushU(0)
+	}
+	a.pushB(auxAddr.Bytes()).op(0x5a).op(outer)
+	// after the outer static call returned, the non-static target may write again
+	if r.Chance(1, 2) {
+		g.writeOp(a)
+	}
+	a.op(0x5a)
+	a.storeTopAndReturn()
+	return a.bytes(), r.Bytes(r.Intn(10)), aux, aux2
+}
+
 // call-family and create programs
 func (g *gen) progCalls() ([]byte, []byte, []byte) {
 	r := g.r
@@ -491,6 +626,10 @@ func (g *gen) progDeep() ([]byte, []byte, []byte) {
 
 // AUTH with a real signature (EIP-3074 style), then AUTHCALL on behalf of the signer
 func (g *gen) progAuthLive() ([]byte, []byte, []byte) {
+	return g.progAuthLiveFor(target)
+}
+
+func (g *gen) progAuthLiveFor(invoker common.Address) ([]byte, []byte, []byte) {
 	r := g.r
 	a := &asm{}
 	var key []byte
@@ -510,7 +649,7 @@ func (g *gen) progAuthLive() ([]byte, []byte, []byte) {
 	msg[0] = 0x03
 	cid := common.GetChainId(blockNumber).Bytes()
 	copy(msg[33-len(cid):33], cid)
-	copy(msg[45:65], target.Bytes())
+	copy(msg[45:65], invoker.Bytes())
 	copy(msg[65:], commit)
 	hash := crypto.Keccak256(msg)
 	signed := hash
@@ -802,6 +941,7 @@ type spec struct {
 	gas               uint64
 	value             *big.Int
 	code, input, aux  []byte
+	aux2              []byte
 	to                common.Address
 }
 
@@ -838,6 +978,9 @@ func loadCorpus(dir string) (specs []spec, raw [][2]string) {
 				gas, _ := strconv.ParseUint(w[2], 10, 64)
 				specs = append(specs, spec{kind: "C", cfg: cfg, gas: gas, value: new(big.Int).SetBytes(unhexTok(w[3])),
 					code: unhexTok(w[4]), input: unhexTok(w[5]), aux: unhexTok(w[6]), to: target})
+				if len(w) > 7 {
+					specs[len(specs)-1].aux2 = unhexTok(w[7])
+				}
 			case "G": // G cfg op memLen lastGasCost contractGas stackTopFirst(hex,comma separated)
 				raw = append(raw, [2]string{"G", strings.Join(w[1:], " ")})
 			case "K": // K cfg gas valueHex initHex
@@ -871,6 +1014,7 @@ func emitRun(out *hx.Out, head string, run func() string, stats map[string]int) 
 }
 
 func doSpec(out *hx.Out, s spec, stats map[string]int) string {
+	worldAux2 = s.aux2
 	if s.kind == "K" {
 		head, run := runCreate(s.cfg, s.gas, s.value, s.code, s.aux)
 		return emitRun(out, head, run, stats)
@@ -925,9 +1069,18 @@ func main() {
 		if r.Chance(1, 8) {
 			value = big.NewInt(int64(r.Intn(1000)))
 		}
-		var code, input, aux []byte
+		var code, input, aux, aux2 []byte
 		kind := ""
-		switch k := r.Intn(20); {
+		switch k := r.Intn(22); {
+		case k >= 20:
+			kind = "nested-static"
+			code, input, aux, aux2 = g.progNestedStatic()
+			if gas < 300000 {
+				gas = 3000000
+			}
+			if r.Chance(1, 2) {
+				cfg |= 2
+			}
 		case k < 6:
 			kind = "one-op"
 			code, input, aux = g.progOneOp()
@@ -974,7 +1127,7 @@ func main() {
 			to = precompileAddr(1 + r.Intn(18))
 			input = g.precompileInput(int(to[19]))
 		}
-		doSpec(out, spec{kind: "C", cfg: cfg, gas: gas, value: value, code: code, input: input, aux: aux, to: to}, stats)
+		doSpec(out, spec{kind: "C", cfg: cfg, gas: gas, value: value, code: code, input: input, aux: aux, aux2: aux2, to: to}, stats)
 	}
 	// deep recursion to the depth limit (needs ~2^62 gas because of the 63/64 rule)
 	deep := hx.ArgInt(a, "deep", 1)
